@@ -3,11 +3,13 @@
 (* C20, prepared states: every record is ONE reaction update executed by   *)
 (* the real component on a prepared state with integer energies            *)
 (* (population, molecule list, buffer, reactant and product populations    *)
-(* on the stack).  Load puts the record's state into the variables of      *)
-(* Cro.tla; React is Cro's own action for the recorded call and must       *)
+(* on the stack, `below` further populations underneath).  Load puts the   *)
+(* record's state into the variables of Cro.tla; React is Cro's own action *)
+(* for the recorded call and must                                          *)
 (*  * decide accepted / rejected from the integer state (a record whose   *)
 (*    state changed must be an accepted reaction),                         *)
-(*  * leave the recorded objective values (exact integers),                *)
+(*  * leave the recorded objective values (exact integers) and solutions   *)
+(*    at the recorded positions,                                           *)
 (*  * admit the recorded kinetic energy of the first reactant and the      *)
 (*    recorded buffer level rounded down (the random split is a            *)
 (*    nondeterministic integer choice in the model),                       *)
@@ -16,7 +18,12 @@
 (*    cons (total energy unchanged up to rounding), nonneg, split (the     *)
 (*    shares add up to the released energy), local (molecules that do not  *)
 (*    take part are bit-identical), aligned (one molecule per individual,  *)
-(*    in order: each molecule's best belongs to its individual).           *)
+(*    in order: each molecule's best belongs to its individual), lower     *)
+(*    (the populations underneath are bit-identical).                      *)
+(* The integers are energies in the record's unit (a power of two, field   *)
+(* `unit` = its exponent): the real state holds integer * 2^unit, which is *)
+(* exact in f64, so the model's integer decision binds at every magnitude  *)
+(* -- a product out of reach by one unit of 2^-54 is out of reach.         *)
 (***************************************************************************)
 EXTENDS Cro, TLC, Json, IOUtils
 Rec == ndJsonDeserialize(IOEnv.TRACE)
@@ -24,12 +31,13 @@ VARIABLES l, phase
 tvars == <<cvars, l, phase>>
 
 TraceInit == /\ l = 1 /\ phase = "load"
-             /\ pe = <<0>> /\ ke = <<0>> /\ buffer = 0 /\ h = 1
+             /\ pe = <<0>> /\ ke = <<0>> /\ sol = <<1>> /\ buffer = 0 /\ below = 0 /\ h = 1
              /\ act = A("init", 0, 0, 0, 0) /\ res = [k |-> "ok"]
 
 Load == /\ phase = "load" /\ l <= Len(Rec)
-        /\ pe' = Rec[l].pe /\ ke' = Rec[l].ke /\ buffer' = Rec[l].buffer
-        /\ h' = (IF Rec[l].op \in {"init", "scoped_init"} THEN 1 ELSE 3)
+        /\ pe' = Rec[l].pe /\ ke' = Rec[l].ke /\ sol' = Rec[l].sol /\ buffer' = Rec[l].buffer
+        /\ below' = Rec[l].below
+        /\ h' = Rec[l].below + (IF Rec[l].op \in {"init", "scoped_init"} THEN 1 ELSE 3)
         /\ act' = A("prepare", 0, 0, 0, 0) /\ res' = [k |-> "ok"]
         /\ phase' = "react" /\ UNCHANGED l
 
@@ -40,11 +48,11 @@ Load == /\ phase = "load" /\ l <= Len(Rec)
 ReactBig == /\ phase = "react" /\ Rec[l].big = 1
             /\ LET r == Rec[l] IN
                /\ r.res \in {"changed", "unchanged"}
-               /\ r.pred.cons = 1 /\ r.pred.nonneg = 1 /\ r.pred.local = 1 /\ r.pred.aligned = 1
-               /\ r.h2 = 1 /\ r.nm = Len(r.pe2)
-               /\ pe' = r.pe2 /\ ke' = [i \in 1..r.nm |-> 0] /\ buffer' = 0 /\ h' = 1
+               /\ r.pred.cons = 1 /\ r.pred.nonneg = 1 /\ r.pred.local = 1 /\ r.pred.aligned = 1 /\ r.pred.lower = 1
+               /\ r.h2 = below + 1 /\ r.nm = Len(r.pe2) /\ Len(r.sol2) = r.nm
+               /\ pe' = r.pe2 /\ ke' = [i \in 1..r.nm |-> 0] /\ sol' = r.sol2 /\ buffer' = 0 /\ h' = below + 1
                /\ act' = A(r.op, r.i, r.j, r.p1, r.p2) /\ res' = [k |-> "ok"]
-            /\ l' = l + 1 /\ phase' = "load"
+            /\ l' = l + 1 /\ phase' = "load" /\ UNCHANGED below
 
 React == /\ phase = "react" /\ Rec[l].big = 0
          /\ LET r == Rec[l] IN
@@ -52,11 +60,13 @@ React == /\ phase = "react" /\ Rec[l].big = 0
             /\ r.res \in {"changed", "unchanged"}                 \* the component returned Ok
             /\ (r.res = "changed" /\ r.op \notin {"init", "scoped_init"}) => res'.k = "accepted"   \* a rejected reaction changes nothing
             /\ pe' = r.pe2
+            /\ sol' = r.sol2                                     \* the products sit where the SELECTED molecules were
             /\ Len(ke') = r.nm                                   \* one molecule record per individual
             /\ buffer' = r.bf
             /\ (res'.k = "accepted" /\ r.op # "synthesis") => ke'[r.i] = r.kef
             /\ r.op \in {"init", "scoped_init"} => ke' = r.ke2   \* (integers: exact)
             /\ r.pred.cons = 1 /\ r.pred.nonneg = 1 /\ r.pred.split = 1 /\ r.pred.local = 1 /\ r.pred.aligned = 1
+            /\ r.pred.lower = 1                                  \* nobody touches the populations underneath
             /\ r.h2 = h'
          /\ l' = l + 1 /\ phase' = "load"
 
